@@ -4,6 +4,7 @@ import (
 	"bytes"
 	"fmt"
 	"math/rand"
+	"os"
 
 	g "github.com/cbehopkins/gkvlite"
 )
@@ -49,6 +50,11 @@ func (w *World) execVisit(op *Op) bool {
 		evictedBefore = w.countEvicted(c)
 	}
 
+	if w.rc != nil && len(op.Sub) > 0 && os.Getenv("VERIF_NO_EXCLUDE") == "" {
+		// known finding K1: a nested mutation supersedes the version this visit pins;
+		// nodes the visit then loads through it would be private to it (see prewarm)
+		w.prewarm(h)
+	}
 	var got []kvp
 	extra := 0
 	stopped := false
